@@ -65,7 +65,9 @@ def setErr (s : Shell) : Shell :=
   if s.started then { s with methodErr := true, sys := .paused, lastErr := true, paused := true }
   else { s with methodErr := true, lastErr := true }   -- no run active: reported, state stays Stopped (repair 560eee15)
 
-/-- fault inside `set_error_state`: none / at its first call (nothing changed yet) / at its last call
+/-- fault inside `set_error_state`: none / at its first call (nothing changed yet, except that the error may already
+    be recorded in `_last_error` when that assignment precedes the call: `errorRecordedFirst`, regenerated from the
+    source — the order of the two is otherwise immaterial) / at its last call
     (`emit_on_method_error`; everything already changed) -/
 inductive HF where
   | none | first | last
@@ -75,7 +77,7 @@ deriving DecidableEq, Repr
 def setErrorState (hf : HF) (s : Shell) : Shell × Bool :=
   match hf with
   | .none => (setErr s, false)
-  | .first => (s, true)
+  | .first => ((if errorRecordedFirst then { s with lastErr := true } else s), true)
   | .last => (setErr s, true)
 
 /-- body of the `except` clause -/
